@@ -54,20 +54,35 @@ MANIFEST = {
 GEN = os.path.join(vlib.LEAN, "GuppyVerif", "Gen", "C22FrozenList.lean")
 
 
+MUTATOR_ARGS = {"append": (9,), "extend": ([9],), "insert": (0, 9), "pop": (), "remove": (1,), "__setitem__": (0, 9),
+                "__delitem__": (0,), "__iadd__": ([9],), "__imul__": (2,), "clear": (), "reverse": (), "sort": ()}
+
+
 def extract_frozenlist(repo):
-    """[(method, raises)] for every method defined in class frozenlist; raises = body is `raise GuppyComptimeError(...)`"""
+    """[(method, rejects)] for every method name the class `frozenlist` overrides (AST: names only, whatever the
+    bodies look like); `rejects` is BEHAVIOUR: calling it on a real frozenlist instance of the tree under check
+    raises GuppyComptimeError and leaves the contents unchanged."""
+    from guppylang_internals.error import GuppyComptimeError
+    from guppylang_internals.tracing.frozenlist import frozenlist
+
     p = os.path.join(repo, "guppylang-internals", "src", "guppylang_internals", "tracing", "frozenlist.py")
-    rows, bases = [], []
+    names, bases = [], []
     for n in ast.parse(open(p).read()).body:
         if isinstance(n, ast.ClassDef) and n.name == "frozenlist":
             bases = [ast.unparse(b) for b in n.bases]
-            for m in n.body:
-                if isinstance(m, ast.FunctionDef):
-                    body = [s for s in m.body if not (isinstance(s, ast.Expr) and isinstance(s.value, ast.Constant))]
-                    raises = (len(body) == 1 and isinstance(body[0], ast.Raise) and isinstance(body[0].exc, ast.Call)
-                              and ast.unparse(body[0].exc.func) == "GuppyComptimeError")
-                    rows.append((m.name, raises))
-    return sorted(rows), bases
+            names = [m.name for m in n.body if isinstance(m, ast.FunctionDef)]
+    rows = []
+    for name in sorted(set(names)):
+        xs = frozenlist([3, 1, 2])
+        try:
+            getattr(xs, name)(*MUTATOR_ARGS.get(name, ()))
+            rejects = False
+        except GuppyComptimeError:
+            rejects = list(xs) == [3, 1, 2]
+        except Exception:  # noqa: BLE001
+            rejects = False
+        rows.append((name, rejects))
+    return rows, bases
 
 
 def translate(ctx):
@@ -81,7 +96,7 @@ def translate(ctx):
         "/-- base classes of `frozenlist` -/",
         "def frozenBases : List String := [" + ", ".join(f'"{b}"' for b in bases) + "]",
         "",
-        "/-- methods defined by `frozenlist`: (name, body is exactly `raise GuppyComptimeError(...)`) -/",
+        "/-- methods overridden by `frozenlist`: (name, calling it on a real instance raises GuppyComptimeError and leaves it unchanged) -/",
         "def frozenOverrides : List (String × Bool) := [",
         ",\n".join(f'  ("{n}", {"true" if r else "false"})' for n, r in rows),
         "]",
